@@ -53,7 +53,7 @@ pub fn check_case(c: &NetCase, obs: &mut Obs) -> Result<(), String> {
 fn qs(t: &mut Tape) -> String {
     let keys = ["utm", "utm_source", "id", "ref", "fbclid", "UTM", "utm2", "xutm", "", "a", "ü", "q%20"];
     let vals = ["1", "", "x=y", "a%26b", "Utm", "ü", "1&", "v"];
-    let n = t.pick(6);
+    let n = if t.chance(1, 30) { 40 + t.pick(300) } else { t.pick(6) };
     let mut parts = vec![];
     for _ in 0..n {
         let k = t.choose(&keys);
@@ -80,7 +80,8 @@ pub fn decode(t: &mut Tape) -> NetCase {
     let hosts = ["x.com", "shop.x.com", "y.org"];
     let params = ["utm", "utm_source", "id", "ref", "fbclid", "UTM", "a", "q"];
     let mut rules = vec![];
-    for _ in 0..(1 + t.pick(5)) {
+    let nrules = if t.chance(1, 30) { 10 + t.pick(60) } else { 1 + t.pick(5) };
+    for _ in 0..nrules {
         let p = t.choose(&["*", "||x.com^", "||y.org/p", "/p?", "", "|https://", "||shop.x.com^", "?utm"]);
         let mut opts = vec![format!("removeparam={}", t.choose(&params))];
         if t.chance(1, 4) {
